@@ -514,4 +514,32 @@ theorem source_match_case : LowerOrder.matchCase = [
   "endfor"
 ] := rfl
 
+/-- `desugaredBinop`: `l + r` on strings / lists, `ip / len`: left lowered and materialised, right lowered and materialised, result temporary, the runtime call stored at once (`LowerS.lowerE`, case `.concat`). -/
+theorem source_desugared_binop : LowerOrder.desugaredBinop = [
+  "self.find_method(kind,name)",
+  "self.expr(l)",
+  "self.assign_to_var(l,l_ty)",
+  "self.expr(r)",
+  "self.assign_to_var(r,r_ty)",
+  "self.tmp(return_type)",
+  "self.call_runtime(func_ref,Vec::new(),mir_signature,vec![l,r])",
+  "self.do_assign(Place::new(tmp.clone(),return_type),return_type,val)"
+] := rfl
+
+/-- `binopStr`: `+` on strings is `desugared_binop(append)`. -/
+theorem source_binop_str : LowerOrder.binopStr = [
+  "match(binop)",
+  "arm(ast::BinOp::Add)",
+  "self.desugared_binop(type_id,\"append\",Type::string(),(l,Type::string()),(r,Type::string()))",
+  "arm(_)",
+  "endmatch"
+] := rfl
+
+/-- `callRuntime`: builds the lazy `Value::CallRuntime` over already materialised arguments. -/
+theorem source_call_runtime : LowerOrder.callRuntime = [
+  "for(varin&args)",
+  "endfor",
+  "Value::CallRuntime{func_ref,args,mir_signature,vtables}"
+] := rfl
+
 end RotoV.C08Source
